@@ -18,9 +18,10 @@ vlib.standard_check({
     "exe": "gv_c20",
     "harness": "c20",
     # harness args after the seed: ncases ncycles mode   (mode bit1: WaitStable + reads right after power-on; bit2: time steps that are
+    # bit3: many recorded variables, 100..500 identifier codes;
     # flushed twice (WaitFor(0) after WaitStable, runs ending exactly on a clock edge); bit0: sub-picosecond WaitFor delays)
-    "streams": {"quick": [[300, 120, 0], [150, 40, 2], [150, 40, 4]],
-                "thorough": [[1500, 300, 0], [150, 3000, 0], [800, 60, 2], [800, 60, 4]]},
+    "streams": {"quick": [[300, 120, 0], [150, 40, 2], [150, 40, 4], [40, 30, 8]],
+                "thorough": [[1500, 300, 0], [150, 3000, 0], [800, 60, 2], [800, 60, 4], [400, 40, 8]]},
     "search": [[150, 100, 0], [60, 60, 6]],
     "signature": signature,
     "eval_key": "ops",
